@@ -5,6 +5,7 @@ go 1.23.0
 toolchain go1.23.5
 
 require (
+	github.com/asaskevich/govalidator v0.0.0-20230301143203-a9d515a09cc2
 	github.com/invopop/gobl v0.0.0-00010101000000-000000000000
 	golang.org/x/tools v0.29.0
 )
@@ -12,7 +13,6 @@ require (
 require (
 	cloud.google.com/go v0.110.2 // indirect
 	github.com/Masterminds/semver/v3 v3.2.1 // indirect
-	github.com/asaskevich/govalidator v0.0.0-20230301143203-a9d515a09cc2 // indirect
 	github.com/bahlo/generic-list-go v0.2.0 // indirect
 	github.com/buger/jsonparser v1.1.1 // indirect
 	github.com/go-jose/go-jose/v4 v4.0.5 // indirect
